@@ -73,7 +73,7 @@ Qed.
 Example repeater_all_empty : forall j,
   virt (nth_node (n_net (nrun (ninit caps3) repeater)) j) = [] /\ sims (nth_node (n_net (nrun (ninit caps3) repeater)) j) = [] /\
   regs (nth_node (n_net (nrun (ninit caps3) repeater)) j) = [] /\ numRegs (nth_node (n_net (nrun (ninit caps3) repeater)) j) = 0.
-Proof. exact (net_stop_leaves_nothing caps3 repeater repeater_clean (proj1 repeater_idle) (proj2 repeater_idle)). Qed.
+Proof. exact (net_stop_leaves_nothing caps3 repeater repeater_clean (proj1 repeater_idle) (f_equal halves (proj2 repeater_idle))). Qed.
 
 Example repeater_all_empty_computed : populations (nrun (ninit caps3) repeater) = [(0, 0, 0, 0); (0, 0, 0, 0); (0, 0, 0, 0)].
 Proof. vm_compute. reflexivity. Qed.
